@@ -104,6 +104,10 @@ type Handler struct {
 	resolvers []caddy.NetworkAddress
 	ctx       caddy.Context
 
+	// whether this handler holds a reference to its
+	// database in databasePool (see openDatabase)
+	databaseOpened bool
+
 	acmeDB        acme.DB
 	acmeAuth      *authority.Authority
 	acmeClient    acme.Client
@@ -161,6 +165,7 @@ func (ash *Handler) Provision(ctx caddy.Context) error {
 	if err != nil {
 		return err
 	}
+	ash.databaseOpened = true
 
 	authorityConfig := caddypki.AuthorityConfig{
 		SignWithRoot: ash.SignWithRoot,
@@ -241,6 +246,13 @@ func (ash Handler) getDatabaseKey() string {
 
 // Cleanup implements caddy.CleanerUpper and closes any idle databases.
 func (ash Handler) Cleanup() error {
+	// only release the database if we actually got as far as
+	// opening it; Cleanup also runs after a Provision that
+	// failed earlier, and then the reference in the pool
+	// belongs to a handler of the config that is still running
+	if !ash.databaseOpened {
+		return nil
+	}
 	key := ash.getDatabaseKey()
 	deleted, err := databasePool.Delete(key)
 	if deleted {
